@@ -63,6 +63,10 @@ def build_plan(tier, seed):
     runs.append({"name": "homogeneous_batches_b3", "inputs": seq, "form": "dict", "batch_size": 3, "n_jobs": 4, "threshold": 0})
     runs.append({"name": "homogeneous_batches_b3_thr", "inputs": seq, "form": "list", "batch_size": 3, "n_jobs": 4,
                  "threshold": 0.5})
+    # the command line: statistics file next to the output file (valid rows only here; C05 covers the rest)
+    cli_rows = [{"rid": "c%d" % j, "reaction": s, "note": "n%d" % j} for j, s in enumerate(seq + kinds["mcs"][3:] + kinds["rule"][3:])]
+    runs.append({"name": "cli_unbatched", "inputs": cli_rows, "form": "cli", "batch_size": None, "n_jobs": 4, "threshold": 0})
+    runs.append({"name": "cli_b4_thr", "inputs": cli_rows, "form": "cli", "batch_size": 4, "n_jobs": 4, "threshold": 0.5})
     return {"runs": runs}
 
 
